@@ -67,11 +67,16 @@ CLAIMED.update({
                "refresh replaces a live version written by the same instance with the same id and token (views invariant: every (token, revision) pair an "
                "instance holds is a version it wrote with that token; history uniqueness). Deletion-by-owner is decided by the monitor only: it is FALSE on the "
                "code in a narrow window (known finding D5 residual, replayed from corpus/).", "5.1 and 11", TECH),
-    "C02": sim("Theorems: a claim is raised only after the claimant's own successful Create/takeover write, a Create succeeds only on a vacant key, and - with a "
-               "configuration the regenerated validate_config accepts, refreshes answered within H/2 and the ticker rule - two consecutive refresh applications are "
-               "less than TTL apart (the record cannot lapse under a healthy leader). The full statement (at most one claimant, claim backed at every instant) is "
-               "evaluated by the monitor at every flag/record change of every fault-free simulated trace; the timed induction that would make it a theorem "
-               "about the model is not done.", "5.2 and 11", TECH, category="proof"),
+    "C02": sim("Theorem (Coq, Props/C02.v, by induction over every trace the protocol model admits, any number of instances and steps): in the environment the "
+               "property names - every store call in flight younger than H/2 and answered without transport fault, 0 < H and 3H <= the bucket's maximum age, a message "
+               "ages out only when that old, nobody else writes, no health checker, no priority takeover - at every position at most one instance claims a key and "
+               "every claim is backed by the live record with the claimant's identity and current token (monitor clauses 201/202). That the record does not age out "
+               "under its holder is DERIVED (timing invariant over the refresh clock; urgency rules 2070/2072/2073 of the model, each validated on every real trace). "
+               "PARTIAL: two hypotheses remain in the environment predicate (Sim/EnvT.v): no Delete takes effect on a key under a holder (the recorded residual of D5), "
+               "and a refresh attempt of a claiming instance is answered with success (true of the rules, derivation not done: DESIGN 12.3). The same theorem with "
+               "'no expiry under a holder' as a hypothesis instead of the timing (Sim/Env.v) and the earlier component theorems are kept. Both environment predicates "
+               "are executable: the oracle reports on how many real traces each holds (non-vacuity), and a recorded trace of the real library satisfies them (theorem). "
+               "The monitor evaluates the full statement at every flag/record change of every fault-free simulated trace.", "5.2, 11 and 12", TECH, category="proof"),
     "C03": sim("Theorems: for all schedules obeying the ticker rule of the heartbeat loop and the regenerated per-attempt time-out, the third consecutive failure completes "
                "within 3H+3T of the start of the last successful refresh and the next attempt after a record change completes within H+2T; the regenerated time-out "
                "is max(H/2,1s) and the regenerated strike comparison first holds at exactly 3. The monitor measures both bounds (and the demotion callback) on every "
@@ -88,22 +93,26 @@ CLAIMED.update({
     "C06": sim("Theorem: for every schedule in which the periodic check fires within the regenerated interval, the acquisition round waits at most the regenerated "
                "maximum jitter and each store call takes at most L, a vacancy is filled within 500 ms + 100 ms + 4L. The monitor measures the bound on every "
                "vacancy of every simulated trace (deletion, expiry after crash/partition, removal; lost/closed/failed watches; transient failures).", "5.6 and 11", TECH),
-    "C07": sim("Theorems: the lease lemma of C02 (no lapse under a fast store with an accepted configuration) and the regenerated takeover comparison yields on equal "
-               "priority. Stability itself (no demotion, no owner/token change, no lapse until stop) is decided by the monitor on every fault-free trace.", "5.7 and 11", TECH,
-               category="other"),
-    "C08": sim("Theorem (Coq, counting invariant over all admitted traces): the local callback rules (one promotion per term, entered while the term is alive and "
-               "before it ends; a demotion only when one is owed; the claim raised only when none is owed) imply that promotion and demotion callbacks strictly "
-               "alternate, starting with a promotion. Token of the promotion and the counts at quiescent points are decided by the monitor.", "5.8 and 11", TECH),
+    "C07": sim("Theorems: a store call answered within half a heartbeat interval (2 lat + 1 < H) never reaches the time-out of the validation read or of the refresh, for "
+               "every H (time-outs regenerated from the source: max(2 s, H/2) after repair 07d1c30, max(1 s, H/2)); the lease lemma and the C02 theorem (the record never "
+               "lapses or changes owner under a claiming leader in the fast-store environment); the regenerated takeover comparison yields on equal priority. Stability itself "
+               "(no demotion until stop) is decided by the monitor on every fault-free trace, including intervals above 4 s and answers between the fixed time-outs and H/2.", "5.7, 11 and 12", TECH, category="other"),
+    "C08": sim("Theorem (Coq, counting invariant over all admitted traces): the local callback rules (one promotion per term; a demotion only when one is owed and after the "
+               "term's promotion has been entered; the claim raised only when no callback is owed) imply that promotion and demotion callbacks strictly alternate, starting "
+               "with a promotion. Rules 2042/2046 of earlier versions (promotion entered while the term is alive) were too strong - a stop landing at the instant of the "
+               "promotion ends the term before the callback goroutine is scheduled - and were replaced by 2047/2048; the theorem was re-proved. Token of the promotion and the "
+               "counts at quiescent points are decided by the monitor, also under stops made from inside the library's call-outs.", "5.8, 11 and 12", TECH),
     "C09": sim("Theorem: a stopped election never raises the claim again (invariant: stopped implies state STOPPED; rules: a stopped election stays stopped, the claim "
                "is refused in state STOPPED). No promotion / no new store call after stop, promptness, goroutine census, crash/hang and the DeleteKey clause are "
                "decided by the monitor over stop points placed before/inside/after every class of store call.", "5.9 and 11", TECH),
     "C10": sim("Theorems: a successful Update from the takeover path replaces only a live version read by the issuer, with takeover enabled and strictly lower stored "
                "priority; the regenerated comparison yields on equal priority and takeover needs the flag and a positive priority. Promptness (3H) and stability "
                "are decided by the monitor on fault-free traces with latency <= H/10.", "5.10 and 11", TECH),
-    "C11": sim("Theorems: the regenerated default grace period is max(3H, 5 s); the lock-order relation regenerated from the source (which locks may be held while "
-               "which lock is acquired, over the call graph) has no cycle and no re-acquisition of a held lock - the deadlock-freedom clause, decided by computation "
-               "over the finite generated relation. Not-early / on-time demotion, the reconnect verification verdict and crash freedom are decided by the monitor on "
-               "connection-notification sequences around the grace boundary (incl. failing verification reads).", "5.11 and 11", TECH),
+    "C11": sim("Theorems: the regenerated default grace period is max(3H, 5 s) and the settling delay before the verification read is 100 ms; the lock-order relation regenerated "
+               "from the source (which locks may be held while which lock is acquired, over the call graph) has no cycle and no re-acquisition of a held lock - the "
+               "deadlock-freedom clause, decided by computation over the finite generated relation. Not-early / on-time demotion, a fresh read after every reconnect "
+               "notification (clause 1107), the verification verdict and crash freedom are decided by the monitor on connection-notification sequences around the grace "
+               "boundary (flapping, notifications between two terms, failing or slow verification reads).", "5.11, 11 and 12", TECH),
     "C12": sim("Theorems: the regenerated threshold comparison first holds at exactly the configured count (default 3 when <= 0, always >= 1) and the check context "
                "expires within 100 ms. Count restart per term / on a healthy result, the callback and continuation as follower are decided by the monitor on health "
                "scripts x thresholds x several terms.", "5.12 and 11", TECH),
@@ -112,8 +121,9 @@ CLAIMED.update({
                "watchdog on tamper scenarios.", "5.13 and 11", TECH),
     "C18": sim("Decided by the monitor only: every Status() snapshot at every quiescent point, every gauge and transition event of every simulated trace is compared "
                "with the model's instance state. No theorem beyond the shared invariants.", "5.18 and 11", TECH, category="other"),
-    "C19": sim("Decided by the monitor only: the promotion context is observed by a watcher goroutine per term; early cancellation and survival beyond the term's end are "
-               "checked on every simulated trace. No theorem.", "5.19 and 11", TECH, category="other"),
+    "C19": sim("Decided by the monitor only: the promotion context is observed by a watcher goroutine per term and by the callback itself when it is woken by the context; "
+               "cancellation while the term's claim is still up at the next instant (1901) and survival beyond the term's end (1902) are checked on every simulated trace, "
+               "including left-over acquisitions that succeed under the instance's own running term. No theorem.", "5.19, 11 and 12", TECH, category="other"),
 })
 
 NOT_CLAIMED = {}
